@@ -1167,6 +1167,13 @@ class Interp(ExtMixin):
         h = getattr(x, "length", None)
         if h is not None:
             return h(self, st)
+        fv = self._dunder(st, x, "__len__")
+        if fv is not None:
+            # len(obj) of an abstract instance: the __len__ of the python class it models (single path expected)
+            outs = list(self.call_function(st, fv, [], {}, node))
+            if len(outs) != 1 or outs[0][0] is not st:
+                raise Unsupported("__len__ forked or changed the state")
+            return outs[0][1]
         raise Unsupported(f"len of {x!r}")
 
     def bi_min(self, st, f, args, kw, node):
